@@ -365,6 +365,7 @@ var c11Sets = map[string][]string{
 	"http-localhost-lookalike":     {"http://localhost.files-cdn.example/cb"},
 	"http-sub-localhost-lookalike": {"http://app.localhost.x.example:8080/cb"},
 	"http-dot-localhost":           {"http://app.localhost/cb"},
+	"with-repeated-query-key":      {"https://app.example/cb?aud=web&aud=api"},
 }
 
 type c11Case struct {
@@ -525,6 +526,79 @@ func c11Run(c c11Case, res *WRes) {
 	}
 }
 
+// c11ForeignPush: client M pushes a request of its own (redirect URI registered for M only); the front channel then
+// presents that request_uri under the client_id of client R. Whatever code or token the endpoint hands out, the
+// target must be a redirect URI registered for the client the code or token belongs to.
+type c11ForeignCase struct {
+	Mode string `json:"mode"`
+}
+
+func c11ForeignRun(c c11ForeignCase, res *WRes) {
+	w := NewWorld(Profile{})
+	for id, uri := range map[string]string{"R": "https://app.example/cb", "M": "https://mallory.example/collect"} {
+		base := w.AddClient(id, "secret-"+id, false)
+		base.RedirectURIs = []string{uri}
+		base.ResponseTypes = []string{"code", "token", "id_token", "code token"}
+		w.Mem.Clients[id] = &fosite.DefaultResponseModeClient{DefaultClient: base, ResponseModes: []fosite.ResponseModeType{fosite.ResponseModeQuery, fosite.ResponseModeFragment, fosite.ResponseModeFormPost}}
+	}
+	p := url.Values{"client_id": {"M"}, "state": {"state-12345678"}, "scope": {"a"}, "redirect_uri": {"https://mallory.example/collect"}}
+	rt := "code"
+	if strings.HasPrefix(c.Mode, "token") {
+		rt = "token"
+	}
+	p.Set("response_type", rt)
+	if i := strings.Index(c.Mode, "-"); i >= 0 {
+		p.Set("response_mode", c.Mode[i+1:])
+	}
+	po := w.PAR(p, w.AuthFor("M"))
+	res.Trans++
+	ru := po.Str("request_uri")
+	if ru == "" {
+		res.note("sanity:foreign-push-refused:" + c.Mode + ":" + po.Class())
+		return
+	}
+	o := w.Authorize(url.Values{"client_id": {"R"}, "request_uri": {ru}}, AuthzOpts{})
+	res.Trans++
+	res.distinct("foreign-push|" + c.Mode)
+	target := ""
+	if o.Location != "" {
+		target = targetBase(o.Location)
+	} else if o.FormAct != "" || o.FormPost != nil {
+		target = o.FormAct
+	}
+	delivered := o.Param("code") != "" || o.Param("access_token") != "" || o.Param("id_token") != ""
+	res.class(fmt.Sprintf("foreign-push:%s:delivered=%v", c.Mode, delivered))
+	if !delivered || target == "" {
+		return
+	}
+	owners := map[string]bool{}
+	for _, rel := range w.Mem.AuthorizeCodes {
+		owners[rel.GetClient().GetID()] = true
+	}
+	for _, rq := range w.Mem.AccessTokens {
+		owners[rq.GetClient().GetID()] = true
+	}
+	for id := range owners {
+		cl, _ := w.Mem.Clients[id]
+		if cl == nil {
+			continue
+		}
+		if ok, why := refQualifies(target, cl.GetRedirectURIs()); !ok {
+			res.violate(Violation{Property: "C11", Fingerprint: "C11/redirect-to-unregistered-target/success/foreign-pushed-request/mode=" + c.Mode,
+				What: fmt.Sprintf("client M pushed a request, the front channel named client %s next to M's request_uri: a code/token belonging to %s was sent to %q, which %s; registered for %s: %v", id, id, target, why, id, cl.GetRedirectURIs()), Engine: "c11foreign", Case: c, Expected: "refusal", Observed: o.Location + o.FormAct})
+		}
+	}
+}
+
+func c11ForeignPush(r *Run) {
+	res := &WRes{}
+	for _, m := range c11Modes {
+		c11ForeignRun(c11ForeignCase{Mode: m}, res)
+		res.Evals++
+	}
+	r.Merge(res)
+}
+
 type c11Job struct {
 	Set   string
 	First string // first mutation (shard); "" => depth-1 only
@@ -584,6 +658,15 @@ func init() {
 		c11Run(c, res)
 		return res.Viol, nil
 	}
+	replayFns["c11foreign"] = func(raw json.RawMessage) ([]Violation, error) {
+		var c c11ForeignCase
+		if err := json.Unmarshal(raw, &c); err != nil {
+			return nil, err
+		}
+		res := &WRes{}
+		c11ForeignRun(c, res)
+		return res.Viol, nil
+	}
 	registerCheck("C11", "exploration", 120*time.Second, 25*time.Minute, func(r *Run) {
 		depth := 2
 		if !r.Quick() {
@@ -609,13 +692,14 @@ func init() {
 		for _, m := range c11Muts {
 			mn = append(mn, m.Name)
 		}
-		r.Bounds = map[string]any{"registered_sets": c11Sets, "mutations": mn, "mutation_depth": depth, "modes": c11Modes, "error_timings": c11Errors, "par": "depth-1 mutations x {code, code+form_post, token, token+form_post} x {none, scope error}; when no redirect_uri is pushed an unregistered one is appended to the request_uri leg", "depth_3": "thorough only, x {code, code+form_post} x {none, scope error}"}
+		r.Bounds = map[string]any{"registered_sets": c11Sets, "mutations": mn, "mutation_depth": depth, "modes": c11Modes, "error_timings": c11Errors, "foreign_pushed_request": "client M pushes, the front channel names client R: every mode", "par": "depth-1 mutations x {code, code+form_post, token, token+form_post} x {none, scope error}; when no redirect_uri is pushed an unregistered one is appended to the request_uri leg", "depth_3": "thorough only, x {code, code+form_post} x {none, scope error}"}
 		r.Rule = "every composition of <= depth mutations applied to the first registered URI of every registered set, under every response type/mode and every error timing, is sent to the real authorization endpoint (and through the PAR endpoint); the bytes written (Location header / form action) are parsed with an independent RFC 3986 splitter and must qualify against the registered set; distinct = distinct (set, requested string, mode, error) that produced a redirect"
 		r.Assumptions = []string{"a query string that is a permutation/re-encoding of the registered one counts as identical (the writer re-encodes the query); scheme case is ignored", "targets the reference splitter cannot parse never qualify"}
 		res := r.Pool.Do("c11", jobs, r.Deadline)
 		if !r.MergeJobs(res) {
 			r.Exhaustive = false
 		}
+		c11ForeignPush(r)
 		if r.Agg.Classes["redirect:ok"] == 0 {
 			r.HarnessErrs = append(r.HarnessErrs, "vacuous: no successful redirect observed")
 		}
